@@ -414,7 +414,8 @@ def child_parses(spec, jobs):
                         trees = [res]
                     else:
                         try:
-                            trees = [res[i] for i in range(min(len(res), 4))]
+                            # res.solutions, not len(): the count may exceed sys.maxsize
+                            trees = [res[i] for i in range(min(res.solutions, 4))]
                         except LoopError:  # cyclic grammar: infinitely many trees
                             trees = []
                             rep["cyclic_forest"] = True
